@@ -1,5 +1,5 @@
 """C09 — sequence interpolants satisfy the path-interpolation property."""
-import wip_C08 as base
+import C08 as base
 
 META = dict(
     title="Sequence interpolants satisfy the path-interpolation property",
